@@ -24,7 +24,7 @@ ASSUMPTIONS = [
     "alpha() inlines #/definitions refs and drops class-name-derived titles: equality ignores class names by design and a title is an annotation",
     "JSON comparison is type-faithful (true != 1, 1 == 1.0)",
 ]
-BUDGET = {"quick": 350, "thorough": 5000}
+BUDGET = {"quick": 600, "thorough": 6000}
 
 observe.register_formats()
 
